@@ -55,6 +55,10 @@ Qed.
 Definition fired (l : list (target * guard)) : list nat :=
   flat_map (fun c => match c with (TTask m, GTrue) => [m] | _ => [] end) l.
 
+(* an ERROR run of task p is handled iff p has an on-error route that fires *)
+Definition has_err_route (sp : spec) (p : nat) : bool :=
+  match fired (ts_err (get_ts sp p)) with [] => false | _ => true end.
+
 (* the tasks started by a run of task p that ended in state x, in dispatch order *)
 Definition routes (sp : spec) (p : nat) (x : state) : list nat :=
   let t := get_ts sp p in
@@ -120,6 +124,7 @@ Qed.
 (* Task.complete computes exactly the prescribed routes (for the three outcomes of an action) *)
 Lemma find_next_simple r : t_state r = SUCCESS \/ t_state r = ERROR \/ t_state r = CANCELLED ->
   exists nx, find_next_tasks sp r = Some nx /\
+    (t_state r = ERROR -> existsb (fun p => evkind_eqb (snd p) OnError) nx = has_err_route sp (t_name r)) /\
     forall tid, is_runs (map (to_cmd sp tid) nx) = true /\ names (map (to_cmd sp tid) nx) = routes sp (t_name r) (t_state r) /\
     map fst (next_names nx) = routes sp (t_name r) (t_state r).
 Proof.
@@ -138,18 +143,23 @@ Proof.
   destruct Hx as [Hx|[Hx|Hx]]; rewrite Hx; cbn [state_eqb is_completed mem existsb orb andb negb is_cancelled_or_skipped is_cancelled is_skipped].
   - (* SUCCESS *)
     cbn [obind]. rewrite (eval_clause_ok _ _ _ OnSuccess H2). cbn [obind]. rewrite (eval_clause_ok _ _ _ OnComplete H0). cbn [obind].
-    eexists. split; [reflexivity|]. intros tid. cbn [app].
+    eexists. split; [reflexivity|]. split; [intros E; discriminate E|]. intros tid. cbn [app].
     destruct (Hmap (fired (ts_succ t)) OnSuccess tid) as [A1 [A2 A3]]. destruct (Hmap (fired (ts_compl t)) OnComplete tid) as [B1 [B2 B3]].
     unfold is_runs, names in *. rewrite !map_app, forallb_app, A1, B1, A2, B2. unfold next_names in *. rewrite flat_map_app, map_app, A3, B3.
     repeat split.
   - (* ERROR *)
     cbn [obind]. rewrite (eval_clause_ok _ _ _ OnError H1). cbn [obind]. rewrite (eval_clause_ok _ _ _ OnComplete H0). cbn [obind].
-    eexists. split; [reflexivity|]. intros tid. cbn [app].
+    eexists. split; [reflexivity|]. split.
+    { intros _. cbn [app]. rewrite existsb_app. unfold has_err_route. fold t.
+      assert (E2 : existsb (fun p : target * evkind => evkind_eqb (snd p) OnError) (map (fun m => (TTask m, OnComplete)) (fired (ts_compl t))) = false).
+      { induction (fired (ts_compl t)) as [|m l IHl]; [reflexivity|]. simpl. exact IHl. }
+      rewrite E2, orb_false_r. destruct (fired (ts_err t)); reflexivity. }
+    intros tid. cbn [app].
     destruct (Hmap (fired (ts_err t)) OnError tid) as [A1 [A2 A3]]. destruct (Hmap (fired (ts_compl t)) OnComplete tid) as [B1 [B2 B3]].
     unfold is_runs, names in *. rewrite !map_app, forallb_app, A1, B1, A2, B2. unfold next_names in *. rewrite flat_map_app, map_app, A3, B3.
     repeat split.
   - (* CANCELLED *)
-    cbn [obind]. eexists. split; [reflexivity|]. intros tid. repeat split.
+    cbn [obind]. eexists. split; [reflexivity|]. split; [intros E; discriminate E|]. intros tid. repeat split.
 Qed.
 End Class.
 
@@ -287,6 +297,18 @@ Proof.
 Qed.
 
 (* ================================================================= the accounting invariant *)
+(* the messages of these runs: the original start request and the one re-issued by resume (no reruns) *)
+Definition dflag (f r x : bool) : bool := (f && negb r && negb x) || (negb f && negb r && x).
+Definition dop (o : op) : bool :=
+  match o with OStartTask _ f r x => dflag f r x | ORunAction _ | OCheck => true | _ => false end.
+Definition ditem (i : item) : bool :=
+  match i with
+  | IStartTask _ f r x => dflag f r x
+  | IExec _ | IResult _ _ => true
+  | IPtq q => forallb dop q
+  | _ => false
+  end.
+
 Definition op_act (aid : nat) (o : op) : nat :=
   match o with ORunAction a => if Nat.eqb a aid then 1 else 0 | _ => 0 end.
 Definition item_act (aid : nat) (i : item) : nat :=
@@ -317,6 +339,12 @@ Definition prescribed_states (sp : spec) (p k : nat) : list state :=
 Definition expanded (sp : spec) (r : trow) (n : nat) : nat :=
   if is_completed (t_state r) then count_occ Nat.eq_dec (routes sp (t_name r) (t_state r)) n else 0.
 
+(* Workflow.check_and_complete's decision once every task execution is completed *)
+Definition verdict_of (l : list trow) : state :=
+  if existsb (fun r => state_eqb (t_state r) CANCELLED) l then CANCELLED
+  else if negb (existsb (fun r => state_eqb (t_state r) ERROR && negb (t_err_handled r)) l) then SUCCESS
+  else ERROR.
+
 Record D (sp : spec) (s : st) (ops : list op) : Prop := {
   D_created : wf_created s = true;
   D_wf : wf_state s = RUNNING \/ is_completed (wf_state s) = true;
@@ -339,8 +367,10 @@ Record D (sp : spec) (s : st) (ops : list op) : Prop := {
   D_tok0 : forall aid, length (acts s) <= aid -> n_act s ops aid = 0;
   D_create : forall n, n < length sp -> rows_named s n = base sp n + sumf (fun r => expanded sp r n) (tasks s);
   D_out : forall p, Permutation (pending_results s p ++ final_states s p) (prescribed_states sp p (nth_call s p));
-  D_items : forallb plain_item (pend s) = true;
-  D_ops : forallb plain_op ops = true
+  D_items : forallb ditem (pend s) = true;
+  D_ops : forallb dop ops = true;
+  D_eh : forall tid r, nth_error (tasks s) tid = Some r -> t_state r = ERROR -> t_err_handled r = has_err_route sp (t_name r);
+  D_verdict : is_completed (wf_state s) = true -> wf_state s = verdict_of (tasks s)
 }.
 
 (* before the start *)
@@ -391,12 +421,29 @@ Proof.
       apply wf_set_state_inv in H. subst s1. right. reflexivity.
 Qed.
 
+Lemma cac_verdict s s1 : check_and_complete s = Some s1 -> wf_state s = RUNNING -> is_completed (wf_state s1) = true ->
+  wf_state s1 = verdict_of (tasks s).
+Proof.
+  unfold check_and_complete. intros H Hw Hc. rewrite Hw in H.
+  change (is_completed RUNNING) with false in H. change (is_paused_or_completed RUNNING) with false in H. cbv iota in H.
+  destruct (Nat.ltb 0 (incomplete_count s)); [injection H as <-; rewrite Hw in Hc; discriminate|].
+  unfold verdict_of. unfold any_cancels, all_errors_handled in H.
+  destruct (existsb (fun r => state_eqb (t_state r) CANCELLED) (tasks s)).
+  - unfold cancel_workflow in H. rewrite Hw in H. change (is_completed RUNNING) with false in H. cbv iota in H.
+    apply wf_set_state_inv in H. subst s1. reflexivity.
+  - destruct (negb (existsb _ (tasks s))).
+    + unfold succeed_workflow in H. rewrite Hw in H. change (state_eqb RUNNING SUCCESS) with false in H. cbv iota in H.
+      apply wf_set_state_inv in H. subst s1. reflexivity.
+    + unfold fail_workflow in H. rewrite Hw in H. change (is_completed RUNNING) with false in H. cbv iota in H.
+      apply wf_set_state_inv in H. subst s1. reflexivity.
+Qed.
+
 Section Tx.
 Variable sp : spec.
 
 Lemma commit_D s ops : D sp s ops -> D sp (commit (s, ops)) [].
 Proof.
-  intros [H1 H2 H3 H4 H5 H6 H7a H7 H8 H9 H10 H11 H12 H13 H14]. unfold commit. cbn [fst snd].
+  intros [H1 H2 H3 H4 H5 H6 H7a H7 H8 H9 H10 H11 H12 H13 H14 H15 H16]. unfold commit. cbn [fst snd].
   destruct ops as [|o l] eqn:Eo; [constructor; assumption|]. rewrite <- Eo in *. clear Eo o l.
   constructor; cbn [add_pend wf_created wf_state backlog tasks acts pend calls]; try assumption.
   - intros aid a Ha. rewrite <- (H9 aid a Ha). unfold n_act. cbn [add_pend pend]. rewrite sumf_app. simpl. lia.
@@ -411,9 +458,10 @@ Qed.
 Lemma hdr_D s s1 ops : D sp s ops -> hdr_only s s1 -> live_wf_state (wf_state s1) = true ->
   (wf_state s1 = RUNNING \/ is_completed (wf_state s1) = true) ->
   (is_completed (wf_state s1) = true -> forall tid r, nth_error (tasks s) tid = Some r -> is_completed (t_state r) = true) ->
+  (is_completed (wf_state s1) = true -> wf_state s1 = verdict_of (tasks s)) ->
   D sp s1 ops.
 Proof.
-  intros [H1 H2 H3 H4 H5 H6 H7a H7 H8 H9 H10 H11 H12 H13 H14] Hh Hl Hw Hd.
+  intros [H1 H2 H3 H4 H5 H6 H7a H7 H8 H9 H10 H11 H12 H13 H14 H15 H16] Hh Hl Hw Hd Hv.
   assert (Hf : tasks s1 = tasks s /\ acts s1 = acts s /\ pend s1 = pend s /\ backlog s1 = backlog s /\
                wf_created s1 = wf_created s /\ calls s1 = calls s) by (destruct Hh as [->|[y ->]]; repeat split; reflexivity).
   destruct Hf as [F1 [F2 [F3 [F4 [F5 F6]]]]].
@@ -425,7 +473,7 @@ Qed.
 
 Lemma run_op_D s o ops : D sp s (o :: ops) -> D sp (run_ops sp s [o]) ops.
 Proof.
-  intros HD. pose proof HD as [H1 H2 H3 H4 H5 H6 H7a H7 H8 H9 H10 H11 H12 H13 H14].
+  intros HD. pose proof HD as [H1 H2 H3 H4 H5 H6 H7a H7 H8 H9 H10 H11 H12 H13 H14 H15 H16].
   simpl in H14. apply andb_true_iff in H14. destruct H14 as [Ho H14]. cbn [run_ops].
   destruct o as [tid f r x|aid| |tid]; simpl in Ho; try discriminate.
   - constructor; cbn [add_pend wf_created wf_state backlog tasks acts pend calls]; try assumption.
@@ -450,6 +498,8 @@ Proof.
       * eapply cac_not_paused; eassumption.
       * right. rewrite (Hq1 ltac:(intros E; rewrite E in Hc; discriminate)). exact Hc.
     + intros Hc1. destruct H2 as [Hw|Hc]; [eapply cac_done; eassumption|apply H5, Hc].
+    + intros Hc1. destruct H2 as [Hw|Hc]; [eapply cac_verdict; eassumption|].
+      rewrite (Hq1 ltac:(intros E; rewrite E in Hc; discriminate)). apply H16, Hc.
 Qed.
 
 Lemma run_ops_D : forall ops s, D sp s ops -> D sp (run_ops sp s ops) [].
@@ -460,7 +510,7 @@ Qed.
 
 Lemma take_ptq_D s ops pre post : pend s = pre ++ IPtq ops :: post -> D sp s [] -> D sp (set_pend s (pre ++ post)) ops.
 Proof.
-  intros Hp [H1 H2 H3 H4 H5 H6 H7a H7 H8 H9 H10 H11 H12 H13 H14].
+  intros Hp [H1 H2 H3 H4 H5 H6 H7a H7 H8 H9 H10 H11 H12 H13 H14 H15 H16].
   assert (Hn : forall aid, n_act (set_pend s (pre ++ post)) ops aid = n_act s [] aid).
   { intros aid. unfold n_act. cbn [set_pend pend]. rewrite Hp, !sumf_app. simpl. lia. }
   constructor; cbn [set_pend wf_created wf_state backlog tasks acts pend calls]; try assumption.
@@ -517,7 +567,7 @@ Lemma drop_item_D s it pre post : pend s = pre ++ it :: post ->
   (forall aid, item_act aid it = 0) -> (forall p, res_of s p it = []) ->
   D sp s [] -> D sp (set_pend s (pre ++ post)) [].
 Proof.
-  intros Hp Hz Hr [H1 H2 H3 H4 H5 H6 H7a H7 H8 H9 H10 H11 H12 H13 H14].
+  intros Hp Hz Hr [H1 H2 H3 H4 H5 H6 H7a H7 H8 H9 H10 H11 H12 H13 H14 H15 H16].
   assert (Hn : forall aid, n_act (set_pend s (pre ++ post)) [] aid = n_act s [] aid).
   { intros aid. unfold n_act. cbn [set_pend pend]. rewrite Hp, !sumf_app. simpl. rewrite Hz. lia. }
   constructor; cbn [set_pend wf_created wf_state backlog tasks acts pend calls]; try assumption.
@@ -535,7 +585,7 @@ Qed.
 Lemma start_new_D s tid r : D sp s [] -> nth_error (tasks s) tid = Some r -> t_state r = IDLE ->
   D sp (commit (check_affected sp (schedule_action (task_set_state s tid RUNNING, []) tid) tid)) [].
 Proof.
-  intros HD Hn Hi. pose proof HD as [H1 H2 H3 H4 H5 H6 H7a H7 H8 H9 H10 H11 H12 H13 H14].
+  intros HD Hn Hi. pose proof HD as [H1 H2 H3 H4 H5 H6 H7a H7 H8 H9 H10 H11 H12 H13 H14 H15 H16].
   rewrite nojoin_check_affected by (apply simple_nojoin; exact Hs).
   assert (Hlt : tid < length (tasks s)) by (apply nth_error_Some; congruence).
   unfold schedule_action, task_set_state. cbn [fst snd app].
@@ -609,6 +659,10 @@ Proof.
         rewrite (nth_error_nth' _ _ dummy_arow _ Eb). rewrite (nth_set_nth_other _ _ _ _ _ (Hnot aid0 b Eb)). reflexivity. }
       unfold res_of. rewrite Hname. reflexivity. }
     rewrite Ef, Ep. exact H12.
+  - intros k y Hk Hy. rewrite Hrow in Hk. destruct (Nat.eqb k tid) eqn:E.
+    + injection Hk as <-. discriminate Hy.
+    + apply (H15 k y Hk Hy).
+  - intros Hc. rewrite Hc in Hwf. discriminate.
 Qed.
 
 Lemma nth_bump : forall l n p, nth p (bump l n) 0 = nth p l 0 + (if Nat.eqb p n then 1 else 0).
@@ -630,7 +684,7 @@ Lemma exec_D s aid pre post : pend s = pre ++ IExec aid :: post -> D sp s [] ->
   let res := nth (nth_call s0 name) (ts_outs (get_ts sp name)) OOk in
   D sp (add_pend (set_calls s0 (bump (calls s0) name)) (IResult aid res)) [].
 Proof.
-  intros Hp HD s0 name res. pose proof HD as [H1 H2 H3 H4 H5 H6 H7a H7 H8 H9 H10 H11 H12 H13 H14].
+  intros Hp HD s0 name res. pose proof HD as [H1 H2 H3 H4 H5 H6 H7a H7 H8 H9 H10 H11 H12 H13 H14 H15 H16].
   assert (Ename : name = name_of_act s aid) by reflexivity.
   assert (Eres : res = outcome sp name (nth_call s name)) by reflexivity.
   clearbody name res.
@@ -679,7 +733,7 @@ Lemma complete_pre_simple s ops tid x r :
   nth_error (tasks s) tid = Some r -> t_state r = RUNNING -> wf_state s = RUNNING ->
   (x = SUCCESS \/ x = ERROR \/ x = CANCELLED) ->
   exists r3 cmds ops',
-    t_name r3 = t_name r /\ t_state r3 = x /\
+    t_name r3 = t_name r /\ t_state r3 = x /\ (x = ERROR -> t_err_handled r3 = has_err_route sp (t_name r)) /\
     is_runs cmds = true /\ names cmds = routes sp (t_name r) x /\ length cmds <= spec_size sp /\
     (ops' = ops \/ ops' = ops ++ [OCheck]) /\
     complete_pre sp (s, ops) tid x = PreCmds (upd_task s tid r3, ops') cmds.
@@ -690,9 +744,9 @@ Proof.
   assert (E1 : get_task (task_set_state s tid x) tid = t_set_state r x).
   { unfold get_task, task_set_state. cbn [upd_task tasks]. rewrite E0. apply nth_error_nth'. apply nth_error_set_nth_same. exact Hlt. }
   assert (Hsk : is_skipped x = false) by (destruct Hx as [->|[->| ->]]; reflexivity).
-  destruct (find_next_simple sp Hs (t_set_state r x)) as [nx [Hfn Hnx]].
+  destruct (find_next_simple sp Hs (t_set_state r x)) as [nx [Hfn [Heh Hnx]]].
   { cbn [t_set_state t_state]. exact Hx. }
-  cbn [t_set_state t_name t_state] in Hnx.
+  cbn [t_set_state t_name t_state] in Hnx, Heh.
   unfold complete_pre. cbn [fst snd]. rewrite E0, Hst, Hsk. cbn [is_completed mem existsb state_eqb orb andb negb].
   rewrite E1. change (wf_state (task_set_state s tid x)) with (wf_state s). rewrite Hw.
   cbn [state_eqb orb]. rewrite Hfn. cbv zeta.
@@ -701,9 +755,10 @@ Proof.
   unfold task_set_state. rewrite upd_task_thrice.
   destruct (Hnx tid) as [N1 [N2 N3]].
   eexists. exists (map (to_cmd sp tid) nx). eexists.
-  split; [|split; [|split; [exact N1|split; [exact N2|split; [|split; [|reflexivity]]]]]].
+  split; [|split; [|split; [|split; [exact N1|split; [exact N2|split; [|split; [|reflexivity]]]]]]].
   - reflexivity.
   - reflexivity.
+  - intros Ex. cbn [t_set_processed t_err_handled]. rewrite Ex. cbn [state_eqb]. apply Heh. exact Ex.
   - rewrite map_length. eapply find_next_len. exact Hfn.
   - destruct (negb _); [right|left]; reflexivity.
 Qed.
@@ -713,15 +768,15 @@ Lemma complete_simple f s ops tid x r :
   nth_error (tasks s) tid = Some r -> t_state r = RUNNING -> wf_state s = RUNNING -> backlog s = [] ->
   (x = SUCCESS \/ x = ERROR \/ x = CANCELLED) ->
   exists r3 cmds ops',
-    t_name r3 = t_name r /\ t_state r3 = x /\
+    t_name r3 = t_name r /\ t_state r3 = x /\ (x = ERROR -> t_err_handled r3 = has_err_route sp (t_name r)) /\
     is_runs cmds = true /\ Permutation (names cmds) (routes sp (t_name r) x) /\
     (ops' = ops \/ ops' = ops ++ [OCheck]) /\
     complete_task sp f (s, ops) tid x = (spawn sp (upd_task s tid r3, ops') cmds, FOk).
 Proof.
   intros Hf Hn Hst Hw Hb Hx.
-  destruct (complete_pre_simple s ops tid x r Hn Hst Hw Hx) as [r3 [cmds [ops' [A1 [A2 [A3 [A4 [A5 [A6 A7]]]]]]]]].
+  destruct (complete_pre_simple s ops tid x r Hn Hst Hw Hx) as [r3 [cmds [ops' [A1 [A2 [Aeh [A3 [A4 [A5 [A6 A7]]]]]]]]]].
   destruct (rearrange_runs cmds A3) as [Hperm Hruns].
-  exists r3, (rearrange cmds), ops'. split; [exact A1|]. split; [exact A2|]. split; [exact Hruns|].
+  exists r3, (rearrange cmds), ops'. split; [exact A1|]. split; [exact A2|]. split; [exact Aeh|]. split; [exact Hruns|].
   split; [rewrite <- A4; unfold names; apply Permutation_sym, Permutation_map; exact Hperm|]. split; [exact A6|].
   rewrite complete_task_eq. destruct f as [|f]; [lia|]. rewrite A7.
   rewrite dispatch_eq. destruct f as [|f]; [lia|]. cbv zeta. cbn [fst upd_task backlog]. rewrite Hb.
@@ -754,7 +809,7 @@ Proof.
   intros H. apply sumf_zero. intros o Ho. rewrite forallb_forall in H. specialize (H o Ho). destruct o; try discriminate H. reflexivity.
 Qed.
 
-Lemma start_ops_plain more : forallb is_start_op more = true -> forallb plain_op more = true.
+Lemma start_ops_plain more : forallb is_start_op more = true -> forallb dop more = true.
 Proof.
   intros H. rewrite forallb_forall in *. intros o Ho. specialize (H o Ho). destruct o as [t f r x| | |]; try discriminate H.
   destruct f, r, x; try discriminate H. reflexivity.
@@ -768,7 +823,7 @@ Proof. rewrite count_occ_sumf, sumf_map. reflexivity. Qed.
 Lemma result_D s aid res pre post : pend s = pre ++ IResult aid res :: post -> D sp s [] ->
   D sp (match do_result sp (set_pend s (pre ++ post)) aid res with (s1, Ok) => s1 | (_, _) => set_pend s (pre ++ post) end) [].
 Proof.
-  intros Hp HD. pose proof HD as [H1 H2 H3 H4 H5 H6 H7a H7 H8 H9 H10 H11 H12 H13 H14].
+  intros Hp HD. pose proof HD as [H1 H2 H3 H4 H5 H6 H7a H7 H8 H9 H10 H11 H12 H13 H14 H15 H16].
   set (s0 := set_pend s (pre ++ post)).
   assert (Hin : In (IResult aid res) (pend s)) by (rewrite Hp; apply in_or_app; right; left; reflexivity).
   pose proof (D_result_valid s [] aid res HD Hin) as Hv.
@@ -789,7 +844,7 @@ Proof.
   unfold do_result. change (acts s0) with (acts s). assert (El : Nat.leb (length (acts s)) aid = false) by (apply Nat.leb_gt; exact Hv).
   rewrite El. unfold get_act. change (acts s0) with (acts s). rewrite (nth_error_nth' _ _ dummy_arow _ Ea). rewrite Einc. cbv zeta.
   fold tid. fold x. set (a' := mkArow tid x true). set (s1 := upd_act s0 aid a').
-  destruct (complete_simple (FUEL sp s1) s1 [] tid x r) as [r3 [cmds [ops' [A1 [A2 [A3 [A4 [A5 A6]]]]]]]];
+  destruct (complete_simple (FUEL sp s1) s1 [] tid x r) as [r3 [cmds [ops' [A1 [A2 [Aeh [A3 [A4 [A5 A6]]]]]]]]];
     [unfold FUEL; lia|exact Er|exact Hrun|exact Hw|exact H4|exact Hx|].
   rewrite A6. rewrite nojoin_check_affected by (apply simple_nojoin; exact Hs).
   destruct (spawn_spec sp cmds (upd_task s1 tid r3, ops') A3) as [rows [more [T [N [I [O [P [Ac [Pe [W [B [C Cr]]]]]]]]]]]].
@@ -894,6 +949,11 @@ Proof.
   - rewrite Pe. rewrite Hp, !forallb_app in H13. simpl in H13. rewrite forallb_app.
     apply andb_true_iff in H13. destruct H13 as [Q1 Q2]. rewrite Q1, Q2. reflexivity.
   - rewrite O, forallb_app, (start_ops_plain more P). destruct A5 as [->| ->]; reflexivity.
+  - intros k y Hk Hye. destruct (Hrowcase k y Hk) as [[-> ->]|[[Hne Hold]|[Hge Hy]]].
+    + rewrite A1. apply Aeh. rewrite <- A2. exact Hye.
+    + apply (H15 k y Hold Hye).
+    + rewrite (Hidle y Hy) in Hye. discriminate.
+  - rewrite W, Hw. discriminate.
 Qed.
 
 Lemma count_occ_filter (f : nat -> bool) l n :
@@ -927,7 +987,7 @@ Qed.
 
 Lemma D_add_check s : D sp s [] -> D sp s [OCheck].
 Proof.
-  intros [H1 H2 H3 H4 H5 H6 H7a H7 H8 H9 H10 H11 H12 H13 H14]. constructor; assumption.
+  intros [H1 H2 H3 H4 H5 H6 H7a H7 H8 H9 H10 H11 H12 H13 H14 H15 H16]. constructor; assumption.
 Qed.
 
 Lemma start_D s : wf_created s = false -> pend s = [] -> D sp (fst (step sp s EStart)) [].
@@ -976,11 +1036,14 @@ Proof.
       rewrite flat_map_nil_all; [destruct p; apply Permutation_refl|].
       intros y Hy. rewrite (Hidle y Hy). cbn. rewrite andb_false_r. reflexivity.
     - rewrite Pe, Hp. reflexivity.
-    - rewrite O. apply start_ops_plain. exact P. }
+    - rewrite O. apply start_ops_plain. exact P.
+    - intros k y Hk Hye. rewrite T in Hk. rewrite (Hidle y (nth_error_In _ _ Hk)) in Hye. discriminate.
+    - rewrite W. discriminate. }
   destruct (cac_spec S (D_live _ _ _ DS)) as [s2 [E2 [Hh [Hl [Hr Hq]]]]]. cbn [fst snd]. rewrite E2. cbn [fst].
   apply commit_D. apply (hdr_D sp S s2 Ops DS Hh Hl).
   - eapply cac_not_paused; [exact E2|rewrite W; reflexivity].
   - intros Hc2. eapply cac_done; [exact E2|rewrite W; reflexivity|exact Hc2].
+  - intros Hc2. eapply cac_verdict; [exact E2|rewrite W; reflexivity|exact Hc2].
 Qed.
 
 Definition plain4 (e : ev) : bool := match e with EStart | EFire _ | EFirePtq _ | EEvict => true | _ => false end.
@@ -1145,6 +1208,69 @@ Proof.
   intros n Hn. destruct (Hden (length sp) (le_n _)) as [_ Hd]. unfold den. rewrite (Hd n Hn).
   split; [reflexivity|apply Hout].
 Qed.
+
+(* the final workflow state prescribed by the definition *)
+Definition den_states (p : nat) : list state := prescribed_states sp p (nth p (den sp) 0).
+Definition den_verdict : state :=
+  if existsb (fun p => existsb (fun x => state_eqb x CANCELLED) (den_states p)) (seq 0 (length sp)) then CANCELLED
+  else if existsb (fun p => negb (has_err_route sp p) && existsb (fun x => state_eqb x ERROR) (den_states p)) (seq 0 (length sp))
+       then ERROR else SUCCESS.
+
+Lemma existsb_regroup (g : nat -> state -> bool) (l : list trow) : (forall r, In r l -> t_name r < length sp) ->
+  existsb (fun r => g (t_name r) (t_state r)) l =
+  existsb (fun p => existsb (g p) (map t_state (filter (fun r => Nat.eqb (t_name r) p) l))) (seq 0 (length sp)).
+Proof.
+  intros Hl. apply Bool.eq_iff_eq_true. rewrite !existsb_exists. split.
+  - intros [r [Hr Hg]]. exists (t_name r). split; [apply in_seq; specialize (Hl r Hr); lia|].
+    apply existsb_exists. exists (t_state r). split; [|exact Hg]. apply in_map. apply filter_In. split; [exact Hr|apply Nat.eqb_refl].
+  - intros [p [_ Hp]]. apply existsb_exists in Hp. destruct Hp as [x [Hx Hg]]. apply in_map_iff in Hx.
+    destruct Hx as [r [<- Hr]]. apply filter_In in Hr. destruct Hr as [Hr Hn]. apply Nat.eqb_eq in Hn. subst p.
+    exists r. split; assumption.
+Qed.
+
+Theorem den_final_state u evs :
+  forallb plain4 evs = true ->
+  let s := run sp u evs in
+  wf_created s = true -> pend s = [] -> wf_state s = den_verdict.
+Proof.
+  intros He s Hc Hp.
+  assert (HI : DInv sp s).
+  { unfold s. rewrite run_steps. apply DInv_steps; [exact He|]. left. repeat split; reflexivity. }
+  destruct HI as [[Hc' _]|HD]; [congruence|].
+  destruct (no_stuck_joinfree sp (simple_nojoin sp Hs) u evs (plain4_live evs He) Hc Hp) as [Hdone Hfin]. fold s in Hdone, Hfin.
+  assert (Hcomp : is_completed (wf_state s) = true).
+  { destruct Hfin as [H|H]; [exact H|]. destruct (D_wf _ _ _ HD) as [H'|H']; [congruence|exact H']. }
+  rewrite (D_verdict _ _ _ HD Hcomp).
+  assert (Hnames : forall r, In r (tasks s) -> t_name r < length sp).
+  { intros r Hr. apply In_nth_error in Hr. destruct Hr as [k Hk]. apply (D_states _ _ _ HD k r Hk). }
+  assert (Hst : forall p, p < length sp -> Permutation (states_named s p) (den_states p)).
+  { intros p Hpl. unfold den_states. apply (den_correct u evs He Hc Hp p Hpl). }
+  unfold verdict_of, den_verdict.
+  assert (E1 : existsb (fun r => state_eqb (t_state r) CANCELLED) (tasks s) =
+               existsb (fun p => existsb (fun x => state_eqb x CANCELLED) (den_states p)) (seq 0 (length sp))).
+  { rewrite (existsb_regroup (fun _ x => state_eqb x CANCELLED) (tasks s) Hnames).
+    apply Bool.eq_iff_eq_true. rewrite !existsb_exists. split; intros [p [Hpi Hx]]; exists p; (split; [exact Hpi|]);
+      apply in_seq in Hpi; fold (states_named s p) in *.
+    - rewrite <- (existsb_perm _ _ _ (Hst p ltac:(lia))). exact Hx.
+    - rewrite (existsb_perm _ _ _ (Hst p ltac:(lia))). exact Hx. }
+  assert (E2 : existsb (fun r => state_eqb (t_state r) ERROR && negb (t_err_handled r)) (tasks s) =
+               existsb (fun p => negb (has_err_route sp p) && existsb (fun x => state_eqb x ERROR) (den_states p)) (seq 0 (length sp))).
+  { assert (Ea : existsb (fun r => state_eqb (t_state r) ERROR && negb (t_err_handled r)) (tasks s) =
+                 existsb (fun r => (fun p x => state_eqb x ERROR && negb (has_err_route sp p)) (t_name r) (t_state r)) (tasks s)).
+    { apply Bool.eq_iff_eq_true. rewrite !existsb_exists. split; intros [r [Hr Hx]]; exists r; (split; [exact Hr|]);
+        apply andb_true_iff in Hx; destruct Hx as [Hx1 Hx2]; cbv beta; rewrite Hx1; simpl;
+        apply In_nth_error in Hr; destruct Hr as [k Hk];
+        assert (Hre : t_state r = ERROR) by (destruct (t_state r); try discriminate Hx1; reflexivity);
+        rewrite (D_eh _ _ _ HD k r Hk Hre) in *; exact Hx2. }
+    rewrite Ea, (existsb_regroup (fun p x => state_eqb x ERROR && negb (has_err_route sp p)) (tasks s) Hnames).
+    apply Bool.eq_iff_eq_true. rewrite !existsb_exists. split; intros [p [Hpi Hx]]; exists p; (split; [exact Hpi|]);
+      apply in_seq in Hpi; fold (states_named s p) in *.
+    - apply existsb_exists in Hx. destruct Hx as [x [Hxi Hx]]. apply andb_true_iff in Hx. destruct Hx as [Hx1 Hx2].
+      rewrite Hx2. simpl. rewrite <- (existsb_perm _ _ _ (Hst p ltac:(lia))). apply existsb_exists. exists x. split; assumption.
+    - apply andb_true_iff in Hx. destruct Hx as [Hx1 Hx2]. rewrite <- (existsb_perm _ _ _ (Hst p ltac:(lia))) in Hx2.
+      apply existsb_exists in Hx2. destruct Hx2 as [x [Hxi Hx2]]. apply existsb_exists. exists x. split; [exact Hxi|]. rewrite Hx2, Hx1. reflexivity. }
+  rewrite E1, E2. destruct (existsb _ (seq 0 (length sp))); [reflexivity|]. destruct (existsb _ (seq 0 (length sp))); reflexivity.
+Qed.
 End Final.
 
 (* the tasks that ran and their final states do not depend on the delivery order *)
@@ -1175,5 +1301,5 @@ Example den_demo_ok :
   let s := run den_demo [] evs in
   simple_b den_demo = true /\ forallb plain4 evs = true /\ wf_created s = true /\ pend s = [] /\
   den den_demo = [1; 1; 2; 2] /\ map (rows_named s) [0; 1; 2; 3] = [1; 1; 2; 2] /\
-  states_named s 2 = [SUCCESS; ERROR] /\ 30 < length evs.
+  states_named s 2 = [SUCCESS; ERROR] /\ wf_state s = CANCELLED /\ den_verdict den_demo = CANCELLED /\ 30 < length evs.
 Proof. vm_compute. repeat split. apply Nat.leb_le. reflexivity. Qed.
